@@ -35,6 +35,14 @@ def cases(rng, tier, X):
             keys = []
             for i in range(kk):
                 keys.append(('02%02x%02x%02x%02x%02x' % (rnd, i >> 8, i & 255, rng.randrange(4), rng.randrange(2)), rng.choice(F.STATIONS + ['0a00000000%02x' % (i & 255)])))
+            if rng.random() < 0.4:
+                # twins among the observations: same real source and Ethernet sources equal but for their first byte(s) — and the
+                # other way round — with the high bit set in every byte
+                tw = rng.sample(F.HIGH, rng.choice([2, 3, 4]))
+                fixed = rng.choice(F.HIGH + F.STATIONS)
+                keys += [(x, fixed) for x in tw] if rng.random() < 0.5 else [(fixed, x) for x in tw]
+                rng.shuffle(keys)
+                keys = keys[:300]
             keys = list(dict.fromkeys(keys))
             for key in keys:
                 ops.append('rx 0 ' + obs_frame(rng, own, key))
